@@ -1,5 +1,6 @@
 """Runs the exporter plugin (and, for the IR cross-check, clang -emit-llvm) on /repo's
 current working tree.  Nothing under /repo is executed."""
+import json
 import os
 import re
 import shutil
@@ -81,6 +82,17 @@ def load_units(config='cmake', extra_defines=()):
         out[u] = Unit(dst, label='%s[%s]' % (u, config))
     _unit_cache[key] = out
     return out
+
+
+_known = None
+
+
+def known_functions():
+    global _known
+    if _known is None:
+        with open(os.path.join(os.path.dirname(os.path.abspath(__file__)), 'known_functions.json')) as fh:
+            _known = json.load(fh)
+    return _known
 
 
 def load_fixture(path, defines=()):
